@@ -1,6 +1,6 @@
 import FlytModel.Generated.IR
 import FlytModel.Expected.IR
-/-! The translation of `runBatch` from the CURRENT source is, term for term, the IR the refinement theorems are about. -/
+/-! The translation of `runBatch` from the CURRENT source is, term for term, the expected IR. -/
 namespace Flyt.Tie
 theorem runBatch : Flyt.Generated.IR.runBatch = Flyt.Expected.IR.runBatch := rfl
 end Flyt.Tie
